@@ -34,20 +34,20 @@ function D(x,d){
   return s+"}";
 }
 function X(e){ return (e instanceof TypeError || e instanceof RangeError) ? "!throw" : "!other:"+String(e); }
-function K(x){ if (typeof x==="number") return x; if (x && typeof x==="object") { if (Array.isArray(x)) return x[0]|0; return x.A|0; } return 0; }
+function K(x){ if (typeof x==="number") return x; if (x && typeof x==="object") { if (Array.isArray(x)) return typeof x[0]==="number" ? (x[0]|0) : 0; return typeof x.A==="number" ? (x.A|0) : 0; } return 0; }
 function C(x,y){ return K(x)-K(y); }
 function J(t){ var j; try { j=JSON.stringify(t); } catch(e) { return "!"+e.name; } return j===undefined ? "u" : D(JSON.parse(j)); }
-function F(t,P){
+function F(t,P,nj){
   if (t===null || typeof t!=="object") return D(t);
   var s=D(t), fi=[], i;
   for (var k in t) fi.push(k);
-  s+="|k="+Object.keys(t).sort().join()+"|f="+fi.sort().join()+"|j="+J(t)+"|s="+(Array.isArray(t)?D([...t]):D({...t}))+"|p=";
+  s+="|k="+Object.keys(t).sort().join()+"|f="+fi.sort().join()+"|j="+(nj?"cyc":J(t))+"|s="+(Array.isArray(t)?D([...t]):D({...t}))+"|p=";
   for (i=0;i<P.length;i++) s+=((P[i] in t)?1:0)+""+(Object.prototype.hasOwnProperty.call(t,P[i])?1:0);
   if (Array.isArray(t)) s+="|l="+t.length;
   return s;
 }
 function FD(w,h,P){ try { return D(w)+"##"+D(h[0])+"##"+D(h[1]); } catch(e) { return "!FD:"+String(e); } }
-function FF(w,h,P){ try { return F(w,P)+"##"+F(h[0],P)+"##"+F(h[1],P); } catch(e) { return "!FF:"+String(e); } }
+function FF(w,h,P,nj){ try { return F(w,P,nj[0])+"##"+F(h[0],P,nj[1])+"##"+F(h[1],P,nj[2]); } catch(e) { return "!FF:"+String(e); } }
 `
 
 type keyDef struct {
